@@ -66,13 +66,13 @@ Proof.
   destruct e; simpl in Hi; try discriminate. simpl. apply IH. exact Ht.
 Qed.
 
-Lemma cb29_link m e m' : cb29 m e = (Ok, m') -> l_link m' = l_link m.
-Proof. destruct e; simpl; destruct (l_phase m); intros H; inversion H; reflexivity. Qed.
-Lemma foldcb_link evs : forall m m', foldcb m evs = (Ok, m') -> l_link m' = l_link m.
+Lemma cb29_link m e m' : cb29 m e = (Ok, m') -> l_link m' = l_link m /\ l_why m' = l_why m.
+Proof. destruct e; simpl; destruct (l_phase m); try destruct (adm (l_why m) reason); intros H; inversion H; auto. Qed.
+Lemma foldcb_link evs : forall m m', foldcb m evs = (Ok, m') -> l_link m' = l_link m /\ l_why m' = l_why m.
 Proof.
-  induction evs as [|e t IH]; intros m m' H; simpl in H; [inversion H; reflexivity|].
+  induction evs as [|e t IH]; intros m m' H; simpl in H; [inversion H; auto|].
   destruct (cb29 m e) as [[|k] m2] eqn:E; [|discriminate].
-  rewrite (IH _ _ H). apply (cb29_link _ _ _ E).
+  destruct (IH _ _ H) as [A B]. destruct (cb29_link _ _ _ E) as [C D]. split; congruence.
 Qed.
 
 (* the phase that belongs to a state of the link layer *)
@@ -82,15 +82,18 @@ Definition ph (x : lstate) : phase29 :=
 (* "if fewer than max_events callbacks are queued, the queue continues the reported history correctly and leads to phase p" *)
 Definition Wr (m : mon29) (r : list cb_event) (p : phase29) : Prop :=
   N.of_nat (length r) <? GenLL.max_events = true -> exists m', foldcb m r = (Ok, m') /\ l_phase m' = p.
+(* the callbacks never change what the monitor knows about the causes of an end *)
+Lemma Wr_why m r m' : foldcb m r = (Ok, m') -> l_why m' = l_why m.
+Proof. intros H. apply (foldcb_link _ _ _ H). Qed.
 
 Lemma Wr_push c m r p e p' :
   c_cb c = true -> Wr m r p ->
-  (forall m', l_phase m' = p -> exists m'', cb29 m' e = (Ok, m'') /\ l_phase m'' = p') ->
+  (forall m', l_phase m' = p -> l_why m' = l_why m -> exists m'', cb29 m' e = (Ok, m'') /\ l_phase m'' = p') ->
   Wr m (pushr c r e) p'.
 Proof.
   intros Hcb W Hstep. unfold Wr, pushr. rewrite Hcb.
   destruct (N.of_nat (length r) <? GenLL.max_events) eqn:E.
-  - intros _. destruct (W E) as (m' & F & P). destruct (Hstep m' P) as (m'' & C & P').
+  - intros _. destruct (W E) as (m' & F & P). destruct (Hstep m' P (Wr_why _ _ _ F)) as (m'' & C & P').
     exists m''. split; [|exact P']. rewrite (foldcb_app _ _ _ _ F). simpl. rewrite C. reflexivity.
   - intros H. congruence.
 Qed.
@@ -102,7 +105,7 @@ Lemma Wr_push_info c m r e :
   c_cb c = true -> info_event e = true -> Wr m r LEstablished -> Wr m (pushr c r e) LEstablished.
 Proof.
   intros Hcb Hi W. apply Wr_push with LEstablished; auto.
-  intros m' P. exists m'. destruct e; simpl in Hi; try discriminate; simpl; rewrite P; auto.
+  intros m' P _. exists m'. destruct e; simpl in Hi; try discriminate; simpl; rewrite P; auto.
 Qed.
 
 Lemma pushr_length c r e : (length r <= length (pushr c r e))%nat.
@@ -228,19 +231,21 @@ Lemma reset_encryption_frame29 c s :
 Proof. unfold reset_encryption. destruct (c_enc c); cbn; auto 10. Qed.
 
 Lemma force_disconnect29 c m s s' it :
-  c_cb c = true -> in_connection s = true -> Wr m (ring s) (ph (st s)) -> force_disconnect c s = (s', it) ->
+  c_cb c = true -> in_connection s = true -> Wr m (ring s) (ph (st s)) ->
+  (st s <> Connecting -> adm (l_why m) (disc_reason s) = true) ->
+  force_disconnect c s = (s', it) ->
   st s' = Advertising /\ Wr m (ring s') LIdle /\ deferred s' = None /\ forallb nocb_item it = true.
 Proof.
-  intros Hcb Hin W H. unfold force_disconnect in H.
+  intros Hcb Hin W Ha H. unfold force_disconnect in H.
   pose proof (reset_encryption_frame29 c s) as F. destruct (reset_encryption c s) as [s1 i1].
   destruct F as (F1 & F2 & F3 & F4 & F5 & F6).
   unfold start_advertising_impl, handle_start_advertising in H. injection H as <- <-.
   cbn [st ring deferred set_deferred set_st].
   split; [reflexivity|]. split; [|split; [reflexivity|]].
   - rewrite F1. unfold in_connection in Hin.
-    destruct (st s) eqn:Es; try discriminate; rewrite ring_push_event, F2;
+    destruct (st s) eqn:Es; try discriminate; rewrite ring_push_event, F2, ?F3;
       (apply Wr_push with (ph (st s)); [exact Hcb|rewrite Es; exact W|rewrite Es; cbn [ph]]);
-      intros m' P; simpl; rewrite P; eexists; split; reflexivity.
+      intros m' P Y; simpl; rewrite P, ?Y, ?Ha by discriminate; eexists; split; reflexivity.
   - rewrite !forallb_app, F5. unfold reset_phy. destruct (c_phy c); reflexivity.
 Qed.
 
@@ -296,6 +301,189 @@ Proof.
 Qed.
 
 (* ========================================================================================== part 4 *)
+(* ---------------------------------------------------------------- the reason of closed *)
+Definition armed (s : lstate_t) : bool := negb (proc_timeout s =? 0) || cpr_pending (pr s) || ver_pending (pr s).
+Definition known (w : why29) (body : list N) : Prop :=
+  (inst_body body = true -> w_inst w = true) /\ (forall x, body = [2; x] -> existsb (N.eqb x) (w_terms w) = true).
+Definition RX (w : why29) (s : lstate_t) : Prop := forall body, In (3, body) (rxq (bf s)) -> known w body.
+
+(* the part of the state the reason depends on *)
+Definition V (s : lstate_t) := (disc_reason s, proc_timeout s, cpr_pending (pr s), ver_pending (pr s), rxq (bf s)).
+Lemma V_commit s p : V (commit s p) = V s.
+Proof. unfold commit, V. ifs; reflexivity. Qed.
+Lemma V_commit_ctrl s b : V (commit_ctrl s b) = V s.
+Proof. apply V_commit. Qed.
+Lemma V_push_event c s e : V (push_event c s e) = V s.
+Proof. unfold push_event, V. ifs; reflexivity. Qed.
+Lemma V_encryption_changed c s b : V (encryption_changed c s b) = V s.
+Proof. unfold encryption_changed. destruct b; [apply V_push_event|reflexivity]. Qed.
+Lemma V_dr s s' : V s' = V s -> disc_reason s' = disc_reason s /\ armed s' = armed s /\ rxq (bf s') = rxq (bf s).
+Proof. unfold V, armed. intros H. injection H as -> -> -> -> ->. auto. Qed.
+
+Lemma kind_terminate c v o z : ctrl_kind c v o z = KTerminate -> o = 2 /\ z = 2.
+Proof.
+  unfold ctrl_kind, ctrl_kind_b.
+  destruct ((o =? GenLL.LL_CONNECTION_UPDATE_IND) && (z =? 12)); [discriminate|].
+  destruct ((o =? GenLL.LL_TERMINATE_IND) && (z =? 2)) eqn:E; [intros _; change GenLL.LL_TERMINATE_IND with 2 in E; lia|].
+  repeat match goal with |- context [if ?b then _ else _] => destruct b; [discriminate|] end. discriminate.
+Qed.
+Lemma kind_instant c v o z :
+  match ctrl_kind c v o z with KUpdate | KChannelMap | KPhyUpdate => True | _ => False end ->
+  (0 <? z) = true /\ (o = 0 \/ o = 1 \/ o = 24).
+Proof.
+  unfold ctrl_kind, ctrl_kind_b.
+  destruct ((o =? GenLL.LL_CONNECTION_UPDATE_IND) && (z =? 12)) eqn:E1; [intros _; change GenLL.LL_CONNECTION_UPDATE_IND with 0 in E1; lia|].
+  destruct ((o =? GenLL.LL_TERMINATE_IND) && (z =? 2)); [intros []|].
+  destruct ((o =? GenLL.LL_VERSION_IND) && (z =? 6) && negb v); [intros []|].
+  destruct ((o =? GenLL.LL_CHANNEL_MAP_REQ) && (z =? 8)) eqn:E2; [intros _; change GenLL.LL_CHANNEL_MAP_REQ with 1 in E2; lia|].
+  do 11 (match goal with |- context [if ?b then _ else _] => destruct b; [intros []|] end).
+  match goal with |- context [if ?b then _ else _] => destruct b eqn:E3 end; [intros _; change GenLL.LL_PHY_UPDATE_IND with 24 in E3; lia|].
+  destruct (negb _); intros [].
+Qed.
+
+Lemma armed_pt0 s s' :
+  cpr_pending (pr s') = cpr_pending (pr s) -> ver_pending (pr s') = ver_pending (pr s) ->
+  (proc_timeout s' = proc_timeout s \/ proc_timeout s' = 0) -> armed s' = true -> armed s = true.
+Proof.
+  unfold armed. intros -> -> [->| ->]; [auto|]. cbn. intros H. rewrite <- orb_assoc, H. apply orb_true_r.
+Qed.
+
+Lemma handle_reject_V c s o b :
+  let s1 := handle_reject c s o b in
+  disc_reason s1 = disc_reason s /\ rxq (bf s1) = rxq (bf s) /\ (armed s1 = true -> armed s = true).
+Proof.
+  cbn zeta. unfold handle_reject.
+  match goal with |- context [push_event c ?X _] => set (X0 := X) end.
+  assert (F : disc_reason X0 = disc_reason s /\ rxq (bf X0) = rxq (bf s) /\ (armed X0 = true -> armed s = true)).
+  { subst X0. unfold clear_cpr_feature.
+    repeat match goal with |- context [if ?x then _ else _] => destruct x end;
+      (split; [reflexivity|split; [reflexivity|]]); try (intros H; exact H);
+      (apply armed_pt0; [reflexivity|reflexivity|right; reflexivity]). }
+  destruct F as (F1 & F2 & F3).
+  destruct (negb (o =? GenLL.LL_UNKNOWN_RSP));
+    (match goal with |- context [push_event c X0 ?e] => destruct (V_dr _ _ (V_push_event c X0 e)) as (A1 & A2 & A3) end;
+     rewrite A1, A2, A3; auto).
+Qed.
+
+Lemma from_V s s1 : V s1 = V s -> (armed s1 = true -> armed s = true) /\ rxq (bf s1) = rxq (bf s) /\ disc_reason s1 = disc_reason s.
+Proof. intros E. destruct (V_dr _ _ E) as (A & B & C). rewrite B. auto. Qed.
+
+Ltac vsame H :=
+  injection H as <- <- <-; apply from_V;
+  rewrite ?V_commit_ctrl, ?V_push_event, ?V_encryption_changed; try reflexivity;
+  cbn [upd_pr set_pr]; rewrite ?V_commit_ctrl, ?V_push_event; reflexivity.
+
+Lemma hlc_reason c s body s1 it res :
+  handle_ll_control c s body = (s1, it, res) ->
+  (armed s1 = true -> armed s = true) /\ rxq (bf s1) = rxq (bf s)
+  /\ match res with
+     | GoAhead => disc_reason s1 = disc_reason s
+     | DoDisconnect => (disc_reason s1 = 40 /\ inst_body body = true) \/ (exists x, body = [2; x] /\ disc_reason s1 = x)
+     end.
+Proof.
+  intros H. unfold handle_ll_control in H.
+  set (opcode := if 0 <? N.of_nat (length body) then byte body 0 else 255) in *.
+  pose proof (kind_terminate c (ver_received (pr s)) opcode (N.of_nat (length body))) as KT.
+  pose proof (kind_instant c (ver_received (pr s)) opcode (N.of_nat (length body))) as KI.
+  assert (INST : (0 <? N.of_nat (length body)) = true /\ (opcode = 0 \/ opcode = 1 \/ opcode = 24) -> inst_body body = true).
+  { intros [Z O]. subst opcode. rewrite Z in O. destruct body as [|o t]; [simpl in Z; discriminate|].
+    unfold byte in O. simpl in O. simpl. destruct O as [->|[->| ->]]; reflexivity. }
+  destruct (ctrl_kind c (ver_received (pr s)) opcode (N.of_nat (length body))) eqn:K.
+  - (* KUpdate *) specialize (INST (KI I)). destruct (instant_passed_update _ _); [|vsame H].
+    injection H as <- <- <-. split; [intros X; exact X|]. split; [reflexivity|]. left. split; [reflexivity|exact INST].
+  - (* KTerminate *) destruct (KT eq_refl) as [O Z]. injection H as <- <- <-.
+    split; [intros X; exact X|]. split; [reflexivity|]. right.
+    destruct body as [|a [|b [|? ?]]]; simpl in Z; try lia. subst opcode. cbn in O. exists b. subst a. split; reflexivity.
+  - (* KVersion *)
+    injection H as <- <- <-.
+    match goal with |- context [armed ?X] => set (X0 := X) end.
+    assert (F : disc_reason X0 = disc_reason s /\ rxq (bf X0) = rxq (bf s) /\ proc_timeout X0 = 0
+                /\ cpr_pending (pr X0) = cpr_pending (pr s) /\ ver_pending (pr X0) = ver_pending (pr s)).
+    { subst X0. unfold commit_ctrl, commit, push_event, clear_cpr_feature.
+      repeat match goal with |- context [if ?x then _ else _] => destruct x end; cbn; auto. }
+    destruct F as (F1 & F2 & F3 & F4 & F5).
+    split; [apply armed_pt0; auto|]. auto.
+  - (* KChannelMap *) specialize (INST (KI I)). destruct (instant_passed_map _ _); [|vsame H].
+    injection H as <- <- <-. split; [intros X; exact X|]. split; [reflexivity|]. left. split; [reflexivity|exact INST].
+  - vsame H.
+  - vsame H.
+  - injection H as <- <- <-. destruct (handle_reject_V c s opcode body) as (A & B & C). auto.
+  - injection H as <- <- <-. destruct (handle_reject_V c s opcode body) as (A & B & C). auto.
+  - injection H as <- <- <-. destruct (handle_reject_V c s opcode body) as (A & B & C). auto.
+  - destruct (handle_cpr c s body) as [rsp cit]. destruct rsp; vsame H.
+  - vsame H.
+  - destruct (has_key (sc s) && negb (enc_prog (sc s))); vsame H.
+  - vsame H.
+  - vsame H.
+  - vsame H.
+  - (* KPhyUpdate *) specialize (INST (KI I)).
+    repeat match type of H with context [if ?b then _ else _] => destruct b end; try (vsame H).
+    injection H as <- <- <-. split; [intros X; exact X|]. split; [reflexivity|]. left. split; [reflexivity|exact INST].
+  - vsame H.
+  - vsame H.
+Qed.
+
+Lemma adm_base w r : r = w_base w -> adm w r = true.
+Proof. intros ->. unfold adm. rewrite N.eqb_refl. reflexivity. Qed.
+Lemma adm_arm w : w_arm w = true -> adm w 34 = true.
+Proof. intros H. unfold adm. rewrite H, N.eqb_refl. cbn [andb]. rewrite orb_true_r. reflexivity. Qed.
+
+(* "s' comes later in the same operation": no new procedure timer source, no new received PDU *)
+Definition Fr (s s' : lstate_t) : Prop :=
+  (armed s' = true -> armed s = true) /\ (forall p, In p (rxq (bf s')) -> In p (rxq (bf s))).
+Lemma Fr_refl s : Fr s s.
+Proof. split; auto. Qed.
+Lemma Fr_trans a b c : Fr a b -> Fr b c -> Fr a c.
+Proof. intros [A1 A2] [B1 B2]. split; auto. Qed.
+Lemma Fr_V s s' : V s' = V s -> Fr s s'.
+Proof. intros E. destruct (V_dr _ _ E) as (A & B & C). split; [rewrite B; auto|rewrite C; auto]. Qed.
+
+Lemma hrd_reason fuel c w : w_rx w = true -> forall s s1 it res,
+  RX w s -> adm w (disc_reason s) = true -> handle_received_data fuel c s = (s1, it, res) ->
+  adm w (disc_reason s1) = true /\ (res = GoAhead -> disc_reason s1 = disc_reason s) /\ Fr s s1.
+Proof.
+  intros Hrx. induction fuel as [|fuel IH]; intros s s1 it res HX Ha H; simpl in H.
+  - injection H as <- <- <-. split; [exact Ha|]. split; [auto|apply Fr_refl].
+  - destruct (deferred s); [injection H as <- <- <-; split; [exact Ha|]; split; [auto|apply Fr_refl]|].
+    destruct (rxq (bf s)) as [|[llid body] rest] eqn:Erx; [injection H as <- <- <-; split; [exact Ha|]; split; [auto|apply Fr_refl]|].
+    destruct (llid =? GenLL.ll_control_pdu_code) eqn:El.
+    + destruct (tx_buffer_available s); [|injection H as <- <- <-; split; [exact Ha|]; split; [auto|apply Fr_refl]].
+      destruct (handle_ll_control c s body) as [[s1' it1] r1] eqn:E1.
+      destruct (hlc_reason c s body s1' it1 r1 E1) as (A1 & A2 & A3).
+      assert (Kn : known w body).
+      { apply HX. rewrite Erx. left. apply N.eqb_eq in El. change GenLL.ll_control_pdu_code with 3 in El. rewrite El. reflexivity. }
+      set (s2 := upd_bf s1' (fun b => set_rxq b rest)) in *.
+      assert (F2 : Fr s s2).
+      { split; [exact A1|]. intros p Hp. change (rxq (bf s2)) with rest in Hp. rewrite Erx. right. exact Hp. }
+      destruct r1.
+      * destruct (handle_received_data fuel c s2) as [[s3 it3] r3] eqn:E3. injection H as <- <- <-.
+        assert (HX2 : RX w s2) by (intros b Hb; apply HX; apply (proj2 F2); exact Hb).
+        assert (Ha2 : adm w (disc_reason s2) = true) by (change (disc_reason s2) with (disc_reason s1'); rewrite A3; exact Ha).
+        destruct (IH s2 s3 it3 r3 HX2 Ha2 E3) as (B1 & B2 & B3).
+        split; [exact B1|]. split; [intros G; rewrite (B2 G); exact A3|apply Fr_trans with s2; assumption].
+      * injection H as <- <- <-. split; [|split; [discriminate|exact F2]].
+        change (disc_reason s2) with (disc_reason s1'). destruct Kn as [K1 K2].
+        destruct A3 as [[D I]|(x & Bx & D)]; rewrite D; unfold adm; rewrite Hrx.
+        -- rewrite (K1 I). cbn. apply orb_true_r.
+        -- rewrite (K2 x Bx). cbn. rewrite !orb_true_r. reflexivity.
+    + destruct ((llid =? GenLL.lld_data_pdu_code) && negb (lstate_eqb (st s) Disconnecting));
+        [|injection H as <- <- <-; split; [exact Ha|]; split; [auto|apply Fr_refl]].
+      assert (Pop : forall sx, V sx = V s -> Fr s (upd_bf sx (fun b => set_rxq b rest))
+                    /\ disc_reason (upd_bf sx (fun b => set_rxq b rest)) = disc_reason s).
+      { intros sx E. destruct (V_dr _ _ E) as (X1 & X2 & X3). split; [|exact X1].
+        split; [intros G; rewrite <- X2; exact G|]. intros p Hp. change (In p rest) in Hp. rewrite Erx. right. exact Hp. }
+      destruct (if c_enc c then l2cap_reply_enc (is_enc (sc s)) body else l2cap_reply body) as [|r].
+      * destruct (Pop s eq_refl) as [P1 P2].
+        destruct (IH _ s1 it res (fun b Hb => HX b (proj2 P1 _ Hb)) (eq_ind_r (fun x => adm w x = true) Ha P2) H) as (B1 & B2 & B3).
+        split; [exact B1|]. split; [intros G; rewrite (B2 G); exact P2|apply Fr_trans with (upd_bf s (fun b => set_rxq b rest)); assumption].
+      * destruct (tx_buffer_available s); [|injection H as <- <- <-; split; [exact Ha|]; split; [auto|apply Fr_refl]].
+        set (s1c := match r with Some f => commit s (GenLL.lld_data_pdu_code, f) | None => s end) in *.
+        assert (Ec : V s1c = V s) by (subst s1c; destruct r; [apply V_commit|reflexivity]).
+        destruct (Pop s1c Ec) as [P1 P2].
+        destruct (IH _ s1 it res (fun b Hb => HX b (proj2 P1 _ Hb)) (eq_ind_r (fun x => adm w x = true) Ha P2) H) as (B1 & B2 & B3).
+        split; [exact B1|]. split; [intros G; rewrite (B2 G); exact P2|apply Fr_trans with (upd_bf s1c (fun b => set_rxq b rest)); assumption].
+Qed.
+
 (* what holds of the state and of the items produced so far in the middle of an operation *)
 Definition mid29 (m : mon29) (s : lstate_t) (it : list item) : Prop :=
   Wr m (ring s) (ph (st s)) /\ (st s = Connecting -> deferred s = None)
@@ -366,19 +554,89 @@ Qed.
 
 Lemma mid29_fd c m s s' it0 it :
   c_cb c = true -> in_connection s = true -> Wr m (ring s) (ph (st s)) -> forallb nocb_item it0 = true ->
+  adm (l_why m) (disc_reason s) = true ->
   force_disconnect c s = (s', it) -> mid29 m s' (it0 ++ it).
 Proof.
-  intros Hcb Hin W N0 H. destruct (force_disconnect29 c m s s' it Hcb Hin W H) as (S & W' & D & N).
+  intros Hcb Hin W N0 Ha H. destruct (force_disconnect29 c m s s' it Hcb Hin W (fun _ => Ha) H) as (S & W' & D & N).
   unfold mid29. rewrite S. split; [exact W'|]. split; [discriminate|]. split; [rewrite forallb_app, N0, N; reflexivity|].
   split; [intros _; unfold in_connection; rewrite S; reflexivity|intros _; exact D].
+Qed.
+
+(* ---- frames of the remaining functions for the reason *)
+Lemma hpll_V c s s1 it res :
+  handle_pending_ll_control c s = Some (s1, it, res) -> disc_reason s1 = disc_reason s /\ Fr s s1.
+Proof.
+  unfold handle_pending_ll_control. destruct (deferred s) as [body|]; [|intros H; injection H as <- <- <-; split; [reflexivity|apply Fr_refl]].
+  destruct (def_instant s =? evc (cs s)); [|intros H; injection H as <- <- <-; split; [reflexivity|apply Fr_refl]].
+  destruct (byte body 0 =? GenLL.LL_CHANNEL_MAP_REQ).
+  - destruct (ChanMapModel.reset_impl _ _ _) as [ch o]. intros H; injection H as <- <- <-. split; [reflexivity|apply Fr_V; reflexivity].
+  - destruct (byte body 0 =? GenLL.LL_CONNECTION_UPDATE_IND).
+    + destruct (parse_update body) as [t ok]. destruct ok as [[|]|]; [| |discriminate]; intros H; injection H as <- <- <-.
+      * destruct (V_dr _ _ (V_push_event c (set_st (set_tm (set_proc_timeout (upd_cs (set_deferred s None) (fun x => if disarmable c then set_last_lat x 1 else x)) 0) t) ConnChanged)
+                                (EvChanged (details_of (set_st (set_tm (set_proc_timeout (upd_cs (set_deferred s None) (fun x => if disarmable c then set_last_lat x 1 else x)) 0) t) ConnChanged))))) as (A1 & A2 & A3).
+        split; [rewrite A1; reflexivity|]. split; [rewrite A2; apply armed_pt0; auto|rewrite A3; auto].
+      * split; [reflexivity|]. split; [apply armed_pt0; auto|auto].
+    + intros H; injection H as <- <- <-.
+      match goal with |- context [push_event c ?X ?e] => destruct (V_dr _ _ (V_push_event c X e)) as (A1 & A2 & A3) end.
+      split; [rewrite A1; reflexivity|]. split; [rewrite A2; auto|rewrite A3; auto].
+Qed.
+
+Lemma tpsp_V c s s6 it6 : transmit_pending_security_pdus c s = (s6, it6) -> V s6 = V s.
+Proof.
+  unfold transmit_pending_security_pdus. destruct (_ && _); [|intros H; injection H as <- <-; reflexivity].
+  destruct (has_key (sc s)); intros H; injection H as <- <-; rewrite V_commit_ctrl; reflexivity.
+Qed.
+Lemma plan_next_V c s e s7 : plan_next_connection_event c s e = Some s7 -> V s7 = V s.
+Proof.
+  unfold plan_next_connection_event. destruct (dt_mul _ _); cbn [obind]; [|discriminate].
+  destruct (_ && _); [discriminate|]. intros H. injection H as <-. reflexivity.
+Qed.
+Lemma setup_next_V s s' it : setup_next_connection_event s = Some (s', it) -> V s' = V s.
+Proof.
+  unfold setup_next_connection_event.
+  destruct (if negb (tw_size (tm s) =? 0) then _ else _) as [[ws we]|]; cbn [obind]; [|discriminate].
+  intros H. injection H as <- <-. reflexivity.
+Qed.
+Lemma scp_V s : V (send_control_pdus s) = V s.
+Proof. unfold send_control_pdus. destruct (_ && _); [|reflexivity]. unfold V. cbn. fold (V (commit_ctrl s [GenLL.LL_TERMINATE_IND; disc_reason s])). apply V_commit_ctrl. Qed.
+Lemma fd_V c s s' it : force_disconnect c s = (s', it) -> V s' = V s.
+Proof.
+  unfold force_disconnect, reset_encryption. destruct (c_enc c); unfold start_advertising_impl, handle_start_advertising;
+    intros H; injection H as <- <-; cbn [st upd_sc set_sc]; destruct (st s); unfold V; cbn; rewrite ?V_push_event;
+    match goal with |- context [push_event c ?X ?e] => pose proof (V_push_event c X e) as E; unfold V in E; injection E as -> -> -> -> -> end; reflexivity.
+Qed.
+Lemma armed_cpr s : cpr_pending (pr s) = true -> armed s = true.
+Proof. unfold armed. intros ->. destruct (negb _); reflexivity. Qed.
+Lemma armed_ver s : ver_pending (pr s) = true -> armed s = true.
+Proof. unfold armed. intros ->. destruct (negb _); destruct (cpr_pending _); reflexivity. Qed.
+
+Lemma tpcp_V c s :
+  disc_reason (transmit_pending_control_pdus c s) = disc_reason s /\ Fr s (transmit_pending_control_pdus c s).
+Proof.
+  unfold transmit_pending_control_pdus.
+  destruct (negb (cpr_pending (pr s)) && negb (phy_pending (pr s)) && negb (ver_pending (pr s)) && negb _); [split; [reflexivity|apply Fr_refl]|].
+  destruct (negb (tx_buffer_available s)); [split; [reflexivity|apply Fr_refl]|].
+  destruct (cpr_pending (pr s)) eqn:Ec.
+  - match goal with |- context [commit_ctrl ?X ?b] => destruct (V_dr _ _ (V_commit_ctrl X b)) as (A1 & A2 & A3) end.
+    split; [rewrite A1; reflexivity|]. split; [intros _; apply armed_cpr; exact Ec|intros p; rewrite A3; auto].
+  - destruct (phy_pending (pr s)).
+    + match goal with |- context [commit_ctrl ?X ?b] => destruct (V_dr _ _ (V_commit_ctrl X b)) as (A1 & A2 & A3) end.
+      split; [rewrite A1; reflexivity|]. split; [rewrite A2; unfold armed; cbn; auto|intros p; rewrite A3; auto].
+    + destruct (ver_pending (pr s)) eqn:Ev.
+      * match goal with |- context [commit_ctrl ?X ?b] => destruct (V_dr _ _ (V_commit_ctrl X b)) as (A1 & A2 & A3) end.
+        split; [rewrite A1; reflexivity|]. split; [intros _; apply armed_ver; exact Ev|intros p; rewrite A3; auto].
+      * destruct (ap_negative (ac s));
+          (match goal with |- context [commit_ctrl ?X ?b] => destruct (V_dr _ _ (V_commit_ctrl X b)) as (A1 & A2 & A3) end;
+           split; [rewrite A1; reflexivity|]; split; [rewrite A2; unfold armed; cbn; auto|intros p; rewrite A3; auto]).
 Qed.
 
 Lemma pending_then_setup29 c m s s' it it0 :
   c_cb c = true -> in_connection s = true -> Wr m (ring s) (ph (st s)) -> (st s = Connecting -> deferred s = None) ->
   forallb nocb_item it0 = true -> has_adv29 it0 = false ->
+  adm (l_why m) (disc_reason s) = true ->
   pending_then_setup c s = Some (s', it) -> mid29 m s' (it0 ++ it).
 Proof.
-  intros Hcb Hin W D N0 A0 H. unfold pending_then_setup in H.
+  intros Hcb Hin W D N0 A0 Ha H. unfold pending_then_setup in H.
   destruct (handle_pending_ll_control c s) as [[[s1 it1] res]|] eqn:E; cbn [obind] in H; [|discriminate].
   destruct (hpll29 c s s1 it1 res E) as (G1 & G2 & G3 & G4).
   assert (K : in_connection s1 = true /\ Wr m (ring s1) (ph (st s1)) /\ (st s1 = Connecting -> deferred s1 = None)).
@@ -404,7 +662,8 @@ Proof.
     rewrite !forallb_app, !has_adv29_app, N0, G3, F4, A0, G4, F5. split; [reflexivity|]. split; [discriminate|].
     rewrite (inconn_st s1 s2 F1), Hin1. discriminate.
   - destruct (force_disconnect c s1) as [s2 it2] eqn:E2. injection H as <- <-.
-    rewrite app_assoc. apply mid29_fd with c s1; auto. rewrite forallb_app, N0, G3. reflexivity.
+    rewrite app_assoc. apply mid29_fd with c s1; auto; [rewrite forallb_app, N0, G3; reflexivity|].
+    rewrite (proj1 (hpll_V c s s1 it1 DoDisconnect E)). exact Ha.
 Qed.
 
 Lemma tpcp_frame29 c s :
@@ -419,13 +678,16 @@ Qed.
 Lemma end_event_continue29 c m s evts s' it it0 :
   c_cb c = true -> ph (st s) = LEstablished -> Wr m (ring s) LEstablished ->
   forallb nocb_item it0 = true -> has_adv29 it0 = false ->
+  adm (l_why m) (disc_reason s) = true -> (armed s = true -> w_arm (l_why m) = true) ->
   end_event_continue c s evts = Some (s', it) -> mid29 m s' (it0 ++ it).
 Proof.
-  intros Hcb P W N0 A0 H. unfold end_event_continue in H.
+  intros Hcb P W N0 A0 Ha Harm H. unfold end_event_continue in H.
   assert (Hin : in_connection s = true) by (unfold in_connection; destruct (st s); try discriminate; reflexivity).
-  destruct (procedure_timed_out s).
+  destruct (procedure_timed_out s) eqn:Ept.
   - injection H as H. unfold force_disconnect_reason in H.
-    apply mid29_fd with c (set_disc_reason s GenLL.connection_ll_response_timeout); auto. cbn [ring st set_disc_reason]. rewrite P. exact W.
+    apply mid29_fd with c (set_disc_reason s GenLL.connection_ll_response_timeout); auto; [cbn [ring st set_disc_reason]; rewrite P; exact W|].
+    cbn [disc_reason set_disc_reason]. change GenLL.connection_ll_response_timeout with 34. apply adm_arm, Harm.
+    unfold procedure_timed_out in Ept. apply andb_true_iff in Ept. destruct Ept as [Ept _]. unfold armed. rewrite Ept. reflexivity.
   - set (s5 := if negb (proc_timeout s =? 0) then set_proc_timeout s (proc_timeout s - tsle (cs s)) else s) in *.
     assert (F5 : st s5 = st s /\ ring s5 = ring s /\ deferred s5 = deferred s) by (subst s5; destruct (negb _); auto).
     destruct F5 as (F51 & F52 & F53).
@@ -442,6 +704,8 @@ Proof.
     + intros C. rewrite S7 in C. rewrite C in P. discriminate.
     + rewrite forallb_app, N0, T4. reflexivity.
     + rewrite has_adv29_app, A0, T5. reflexivity.
+    + rewrite (proj1 (V_dr _ _ (plan_next_V c s6 _ s7 E7))), (proj1 (V_dr _ _ (tpsp_V c s5 s6 it6 E6))).
+      subst s5. destruct (negb _); exact Ha.
 Qed.
 
 Lemma prologue29 c m s :
@@ -467,20 +731,26 @@ Qed.
 
 Lemma end_event_body29 c m s evts s' it :
   c_cb c = true -> ph (st s) = LEstablished -> Wr m (ring s) LEstablished ->
+  adm (l_why m) (disc_reason s) = true -> (armed s = true -> w_arm (l_why m) = true) ->
+  w_rx (l_why m) = true -> RX (l_why m) s ->
   end_event_body c s evts = Some (s', it) -> mid29 m s' it.
 Proof.
-  intros Hcb P W H. unfold end_event_body in H.
+  intros Hcb P W Ha Harm Hrx HX H. unfold end_event_body in H.
   assert (Hin : in_connection s = true) by (unfold in_connection; destruct (st s); try discriminate; reflexivity).
   destruct (lstate_eqb (st s) Disconnecting && term_sent s && negb (pending_outgoing_data_available s)).
   - injection H as H. apply (mid29_fd c m s s' [] it); auto. rewrite P. exact W.
   - destruct (handle_received_data _ c s) as [[s3 it3] res] eqn:E3.
     destruct (hrd29 _ c m Hcb s s3 it3 res P W E3) as (S3 & W3 & N3 & A3).
+    destruct (hrd_reason _ c (l_why m) Hrx s s3 it3 res HX Ha E3) as (Y1 & Y2 & Y3).
     destruct res.
     + destruct (end_event_continue c (send_control_pdus s3) evts) as [[s8 it8]|] eqn:E8; cbn [obind] in H; [|discriminate].
       injection H as <- <-. destruct (send_control_pdus_frame29 s3) as (G1 & G2 & G3).
+      destruct (V_dr _ _ (scp_V s3)) as (Z1 & Z2 & Z3).
       apply end_event_continue29 with c (send_control_pdus s3) evts; auto.
       * rewrite G1, S3. exact P.
       * rewrite G2. exact W3.
+      * rewrite Z1. exact Y1.
+      * rewrite Z2. intros G. apply Harm, (proj1 Y3), G.
     + destruct (force_disconnect c s3) as [s4 it4] eqn:E4. injection H as <- <-.
       apply mid29_fd with c s3; auto.
       * rewrite <- Hin. apply inconn_st. exact S3.
@@ -511,15 +781,29 @@ Proof.
   split; [rewrite has_adv29_app, has_adv29_cbs, orb_false_r; exact A|exact DN].
 Qed.
 
+Lemma prologue_V c s : V (end_event_prologue c s) = V s.
+Proof.
+  unfold end_event_prologue.
+  set (s0 := set_pending_event s false).
+  set (s1 := match st s0 with Connecting => push_event c s0 (EvEstablished (details_of s0)) | _ => s0 end).
+  assert (E : V s1 = V s) by (subst s1 s0; cbn [st set_pending_event]; destruct (st s); rewrite ?V_push_event; reflexivity).
+  destruct (lstate_eqb (st s1) Disconnecting); [exact E|]. rewrite <- E. reflexivity.
+Qed.
+
 Lemma do_end_event29 c m s evts s' it :
   c_cb c = true -> in_connection s = true -> Wr m (ring s) (ph (st s)) ->
+  adm (l_why m) (disc_reason s) = true -> (armed s = true -> w_arm (l_why m) = true) ->
+  w_rx (l_why m) = true -> RX (l_why m) s ->
   do_end_event c s evts = Some (s', it) -> done29 m s' it /\ st s' <> Connecting.
 Proof.
-  intros Hcb Hin W H. unfold do_end_event in H.
+  intros Hcb Hin W Ha Harm Hrx HX H. unfold do_end_event in H.
+  destruct (V_dr _ _ (prologue_V c s)) as (V1 & V2 & V3).
   destruct (prologue29 c m s Hcb Hin W (fun _ => ltac:(unfold in_connection in Hin; destruct (st s); try discriminate; reflexivity))) as (P & W2 & NC).
   destruct (end_event_body c (end_event_prologue c s) evts) as [[s9 it9]|] eqn:E; cbn [obind] in H; [|discriminate].
   assert (H' : end_event_epilogue c s9 it9 = (s', it)) by congruence.
-  pose proof (end_event_body29 c m _ evts s9 it9 Hcb P W2 E) as M9.
+  assert (M9 : mid29 m s9 it9).
+  { apply (end_event_body29 c m _ evts s9 it9 Hcb P W2); [rewrite V1; exact Ha|rewrite V2; exact Harm|exact Hrx| |exact E].
+    intros b Hb. apply HX. rewrite <- V3. exact Hb. }
   split; [apply (epilogue29 c m s9 it9 s' it M9 H')|].
   pose proof (end_event_body_nc c m _ evts s9 it9 Hcb P W2 E) as NC9.
   unfold end_event_epilogue, flush_events in H'. injection H' as <- _. cbn [st set_ring].
@@ -537,19 +821,22 @@ Qed.
 
 Lemma do_timeout29 c m s s' it :
   c_cb c = true -> in_connection s = true -> Wr m (ring s) (ph (st s)) -> (st s = Connecting -> deferred s = None) ->
+  adm (l_why m) (disc_reason s) = true -> (armed s = true -> w_arm (l_why m) = true) ->
   do_timeout c s = Some (s', it) -> done29 m s' it.
 Proof.
-  intros Hcb Hin W D H. unfold do_timeout in H.
+  intros Hcb Hin W D Ha Harm H. unfold do_timeout in H.
   set (s0 := set_pending_event s false) in *.
   match type of H with (do r <- ?X; _) = _ => destruct X as [[s2 it2]|] eqn:E end; cbn [obind] in H; [|discriminate].
   assert (M2 : mid29 m s2 it2).
   { destruct (lstate_eqb (st s0) Disconnecting && term_sent s0 && negb (pending_outgoing_data_available s0)).
     - injection E as E. apply (mid29_fd c m s0 s2 [] it2); auto.
-    - destruct (negb (proc_timeout s0 =? 0) && (proc_timeout s0 <=? tsle (cs s0))).
+    - destruct (negb (proc_timeout s0 =? 0) && (proc_timeout s0 <=? tsle (cs s0))) eqn:Ept.
       + injection E as E. unfold force_disconnect_reason in E.
         apply (mid29_fd c m (set_disc_reason s0 GenLL.connection_ll_response_timeout) s2 [] it2); auto.
+        cbn [disc_reason set_disc_reason]. change GenLL.connection_ll_response_timeout with 34. apply adm_arm, Harm.
+        apply andb_true_iff in Ept. destruct Ept as [Ept _]. unfold armed. change (proc_timeout s0) with (proc_timeout s) in Ept. rewrite Ept. reflexivity.
       + destruct (dt_mul _ _) as [five|]; cbn [obind] in E; [|discriminate].
-        destruct (_ && _).
+        match type of E with context [if ?b then _ else _] => destruct b end.
         * unfold plan_after_timeout in E. destruct (dt_add _ _) as [t|]; cbn [obind] in E; [|discriminate].
           apply (pending_then_setup29 c m _ s2 it2 [] Hcb) in E; auto.
         * injection E as E. apply (mid29_fd c m s0 s2 [] it2); auto. }
@@ -601,9 +888,33 @@ Proof.
 Qed.
 
 (* ========================================================================================== part 6 *)
+Lemma adv_V c s hdr0 body s' it :
+  do_adv_received c s hdr0 body = Some (s', it) ->
+  (st s' = st s /\ V s' = V s) \/ V s' = (GenLL.connection_timeout, 0, false, false, []).
+Proof.
+  intros H. unfold do_adv_received in H.
+  destruct (valid_connect_request c hdr0 body).
+  - destruct (ChanMapModel.reset_impl _ _ _) as [ch r].
+    destruct r as [[|]| | | |]; try discriminate.
+    + destruct (parse_connect body) as [t ok]. destruct ok as [[|]|]; [| |discriminate].
+      * match type of H with (do r11 <- setup_next_connection_event ?X; _) = _ => remember X as s10 eqn:E10 end.
+        assert (F10 : V s10 = (GenLL.connection_timeout, 0, false, false, [])) by (subst s10; reflexivity).
+        clear E10.
+        destruct (setup_next_connection_event s10) as [[s11 it11]|] eqn:E11; cbn [obind] in H; [|discriminate].
+        unfold flush_events in H. injection H as <- <-. right.
+        rewrite <- F10, <- (setup_next_V _ _ _ E11).
+        match goal with |- context [push_event c ?X ?e] => pose proof (V_push_event c X e) as E end.
+        unfold V in *. cbn [disc_reason proc_timeout pr bf set_ring] . rewrite E. reflexivity.
+      * injection H as <- <-. left. split; reflexivity.
+    + injection H as <- <-. left. split; reflexivity.
+  - unfold handle_adv_timeout in H. injection H as <- <-. left. split; reflexivity.
+Qed.
+
 Definition RI (s : lstate_t) (m : mon29) : Prop :=
   ring s = [] /\ l_phase m = ph (st s) /\ (in_connection s = true -> l_link m = true)
-  /\ (st s = Connecting -> deferred s = None) /\ (in_connection s = false -> deferred s = None).
+  /\ (st s = Connecting -> deferred s = None) /\ (in_connection s = false -> deferred s = None)
+  /\ (in_connection s = true -> disc_reason s = w_base (l_why m)) /\ RX (l_why m) s
+  /\ (armed s = true -> w_arm (l_why m) = true).
 
 Lemma ring_callbacks_app a b : ring_callbacks (a ++ b) = (ring_callbacks a + ring_callbacks b)%nat.
 Proof. unfold ring_callbacks. rewrite filter_app, app_length. reflexivity. Qed.
@@ -612,7 +923,7 @@ Proof. unfold ring_callbacks. induction r; simpl; auto. Qed.
 
 Lemma done29_fold m s' it :
   done29 m s' it -> N.of_nat (ring_callbacks it) <? GenLL.max_events = true ->
-  exists m1, fold29 m it = (Ok, m1) /\ l_phase m1 = ph (st s') /\ l_link m1 = l_link m
+  exists m1, fold29 m it = (Ok, m1) /\ l_phase m1 = ph (st s') /\ l_link m1 = l_link m /\ l_why m1 = l_why m
              /\ ring s' = [] /\ (st s' = Connecting -> deferred s' = None) /\ (has_adv29 it = true -> in_connection s' = false)
              /\ (in_connection s' = false -> deferred s' = None).
 Proof.
@@ -621,7 +932,7 @@ Proof.
   assert (Hr : N.of_nat (length r) <? GenLL.max_events = true) by lia.
   destruct (W Hr) as (m1 & F & P).
   exists m1. rewrite (fold29_nocb m pre _ N), fold29_map. split; [exact F|]. split; [exact P|].
-  split; [apply (foldcb_link _ _ _ F)|]. auto.
+  destruct (foldcb_link _ _ _ F) as [L1 L2]. auto 10.
 Qed.
 
 Lemma Wr_nil m p : l_phase m = p -> Wr m [] p.
@@ -632,67 +943,117 @@ Proof. destruct x; simpl; intros; try discriminate; exact I. Qed.
 Lemma inconn_ph s : in_connection s = false <-> ph (st s) = LIdle.
 Proof. unfold in_connection. destruct (st s); simpl; split; intros; try discriminate; reflexivity. Qed.
 
-Definition plain_op (o : lop) : Prop := match o with Adv _ _ | Ev _ _ => False | _ => True end.
+Definition plain_op (o : lop) : Prop := match o with Adv _ _ | Ev _ _ | Disconnect _ => False | _ => True end.
 
 Lemma fold29_nocb_all m it : forallb nocb_item it = true -> fold29 m it = (Ok, m).
 Proof. intros N. rewrite <- (app_nil_r it). rewrite (fold29_nocb m it [] N). reflexivity. Qed.
 
-(* operations that leave st, ring, deferred alone and produce no callback *)
+(* the monitor after it has taken note of the operation *)
+Definition noted (m : mon29) (o : lop) : mon29 := set_why m (why_op (l_why m) o).
+
+Lemma known_mono w w' body :
+  (w_inst w = true -> w_inst w' = true) -> (forall x, existsb (N.eqb x) (w_terms w) = true -> existsb (N.eqb x) (w_terms w') = true) ->
+  known w body -> known w' body.
+Proof. intros A B [K1 K2]. split; [intros I; apply A, K1, I|intros x E; apply B, K2, E]. Qed.
+
+Lemma RX_noted m o s : RX (l_why m) s -> RX (l_why (noted m o)) s.
+Proof.
+  intros HX body Hb. apply (known_mono (l_why m)); [| |apply HX; exact Hb]; destruct o; cbn; auto.
+  - intros ->. reflexivity.
+  - intros x E. rewrite existsb_app, E. reflexivity.
+Qed.
+Lemma arm_noted m o : w_arm (l_why m) = true -> w_arm (l_why (noted m o)) = true.
+Proof. destruct o; cbn; auto. Qed.
+
+Lemma RI_noted s m o : RI s m -> match o with Disconnect _ => False | _ => True end -> RI s (noted m o).
+Proof.
+  intros (R1 & R2 & R3 & R4 & R5 & R6 & R7 & R8) Ho. unfold RI.
+  split; [exact R1|]. split; [exact R2|]. split; [exact R3|]. split; [exact R4|]. split; [exact R5|].
+  split; [|split; [apply RX_noted; exact R7|intros A; apply arm_noted, R8, A]].
+  intros I'. rewrite (R6 I'). destruct o; try reflexivity. destruct Ho.
+Qed.
+
+(* operations that leave st, ring, deferred and the reason alone and produce no callback *)
 Lemma quiet_step c s m o s' it :
   c_cb c = true -> RI s m -> st s' = st s -> ring s' = ring s -> deferred s' = deferred s ->
+  disc_reason s' = disc_reason s -> rxq (bf s') = rxq (bf s) -> (armed s' = true -> armed s = true \/ w_arm (l_why (noted m o)) = true) ->
   forallb nocb_item it = true -> has_adv29 it = false -> plain_op o ->
   exists m', mstep29 c m o (OItems it) = (Ok, m') /\ RI s' m'.
 Proof.
-  intros Hcb (R1 & R2 & R3 & R4 & R5) S1 S2 S3 N A PO.
-  exists m. unfold mstep29. rewrite (fold29_nocb_all m it N), Hcb. cbn [negb]. rewrite A, andb_false_r.
+  intros Hcb HR S1 S2 S3 S4 S5 S6 N A PO.
+  assert (Ho : match o with Disconnect _ => False | _ => True end) by (destruct o; auto).
+  destruct (RI_noted s m o HR Ho) as (R1 & R2 & R3 & R4 & R5 & R6 & R7 & R8).
+  exists (noted m o). unfold mstep29. fold (noted m o). rewrite (fold29_nocb_all _ it N), Hcb. cbn [negb]. rewrite A, andb_false_r.
   split; [destruct o; try reflexivity; destruct PO|].
-  unfold RI. rewrite S1, S2, S3, (inconn_st s s' S1). auto.
+  unfold RI, RX. rewrite S1, S2, S3, S4, S5, (inconn_st s s' S1).
+  split; [exact R1|]. split; [exact R2|]. split; [exact R3|]. split; [exact R4|]. split; [exact R5|]. split; [exact R6|]. split; [exact R7|].
+  intros G. destruct (S6 G) as [G1|G1]; [apply R8, G1|exact G1].
 Qed.
 
 (* operations outside a connection that stay outside *)
 Lemma idle_step c s m o s' it :
   c_cb c = true -> RI s m -> ph (st s) = LIdle -> ph (st s') = LIdle -> ring s' = [] -> deferred s' = None ->
+  rxq (bf s') = rxq (bf s) -> armed s' = armed s ->
   forallb nocb_item it = true -> plain_op o ->
   exists m', mstep29 c m o (OItems it) = (Ok, m') /\ RI s' m'.
 Proof.
-  intros Hcb (R1 & R2 & R3 & R4 & R5) P P' Rg D N PO.
-  unfold mstep29. rewrite (fold29_nocb_all m it N), Hcb. cbn [negb].
+  intros Hcb HR P P' Rg D S5 S6 N PO.
+  assert (Ho : match o with Disconnect _ => False | _ => True end) by (destruct o; auto).
+  destruct (RI_noted s m o HR Ho) as (R1 & R2 & R3 & R4 & R5 & R6 & R7 & R8).
+  unfold mstep29. fold (noted m o). rewrite (fold29_nocb_all _ it N), Hcb. cbn [negb].
   assert (I' : in_connection s' = false) by (apply inconn_ph; exact P').
   assert (C' : st s' <> Connecting) by (intros C; rewrite C in P'; discriminate).
-  destruct (l_link m && has_adv29 it).
-  - rewrite R2, P. cbn [is_idle29]. eexists. split; [destruct o; try reflexivity; destruct PO|].
-    unfold RI. cbn [l_phase l_link]. rewrite P', I'. repeat split; auto; try discriminate; try (intros C; contradiction).
-  - exists m. split; [destruct o; try reflexivity; destruct PO|].
-    unfold RI. rewrite P', I', R2, P. repeat split; auto; try discriminate; try (intros C; contradiction).
+  assert (TL : forall m', l_why m' = l_why (noted m o) -> l_phase m' = LIdle -> RI s' m').
+  { intros m' E1 E2. unfold RI, RX. rewrite E1, E2, P', I', S5, S6, Rg, D.
+    split; [reflexivity|]. split; [reflexivity|]. split; [discriminate|]. split; [intros C; contradiction|].
+    split; [reflexivity|]. split; [discriminate|]. split; [exact R7|exact R8]. }
+  destruct (l_link (noted m o) && has_adv29 it).
+  - rewrite R2, P. cbn [is_idle29]. eexists. split; [destruct o; try reflexivity; destruct PO|]. apply TL; reflexivity.
+  - exists (noted m o). split; [destruct o; try reflexivity; destruct PO|]. apply TL; [reflexivity|rewrite R2; exact P].
 Qed.
 
 Lemma radio_exchange_frame29 s rx :
   let '(s1, it, md) := radio_exchange s rx in
-  st s1 = st s /\ ring s1 = ring s /\ deferred s1 = deferred s /\ forallb nocb_item it = true /\ has_adv29 it = false /\ ring_callbacks it = O.
+  st s1 = st s /\ ring s1 = ring s /\ deferred s1 = deferred s /\ forallb nocb_item it = true /\ has_adv29 it = false /\ ring_callbacks it = O
+  /\ disc_reason s1 = disc_reason s /\ armed s1 = armed s
+  /\ (forall p, In p (rxq (bf s1)) -> In p (rxq (bf s)) \/ exists l b, rx = Some (l, b) /\ p = (N.land l 3, b)).
 Proof.
   unfold radio_exchange.
-  destruct (match fl (bf s) with FHead => tl (txq (bf s)) | _ => txq (bf s) end) as [|[llid body] rest]; cbn; auto 10.
+  assert (Q : forall p, In p (match rx with
+            | Some (llid, body) => if negb (N.of_nat (length body) =? 0) && negb (N.land llid 3 =? 0) then rxq (bf s) ++ [(N.land llid 3, body)] else rxq (bf s)
+            | None => rxq (bf s) end) -> In p (rxq (bf s)) \/ exists l b, rx = Some (l, b) /\ p = (N.land l 3, b)).
+  { intros p. destruct rx as [[l b]|]; [|auto]. destruct (_ && _); [|auto].
+    intros Hp. apply in_app_or in Hp. destruct Hp as [Hp|[Hp|[]]]; [auto|]. right. exists l, b. auto. }
+  destruct (match fl (bf s) with FHead => tl (txq (bf s)) | _ => txq (bf s) end) as [|[llid body] rest]; cbn; auto 12.
 Qed.
 
 Lemma radio_event_frame29 fuel : forall s pdus s1 it,
   radio_event fuel s pdus = (s1, it) ->
-  st s1 = st s /\ ring s1 = ring s /\ deferred s1 = deferred s /\ forallb nocb_item it = true /\ has_adv29 it = false /\ ring_callbacks it = O.
+  st s1 = st s /\ ring s1 = ring s /\ deferred s1 = deferred s /\ forallb nocb_item it = true /\ has_adv29 it = false /\ ring_callbacks it = O
+  /\ disc_reason s1 = disc_reason s /\ armed s1 = armed s
+  /\ (forall p, In p (rxq (bf s1)) -> In p (rxq (bf s)) \/ exists l b, In (l, b) pdus /\ p = (N.land l 3, b)).
 Proof.
   induction fuel as [|fuel IH]; intros s pdus s1 it H; simpl in H.
-  - injection H as <- <-. auto 10.
+  - injection H as <- <-. auto 12.
   - pose proof (radio_exchange_frame29 s (hd_error pdus)) as F.
-    destruct (radio_exchange s (hd_error pdus)) as [[sa ita] md]. destruct F as (F1 & F2 & F3 & F4 & F5 & F6).
+    destruct (radio_exchange s (hd_error pdus)) as [[sa ita] md]. destruct F as (F1 & F2 & F3 & F4 & F5 & F6 & F7 & F8 & F9).
+    assert (F9' : forall p, In p (rxq (bf sa)) -> In p (rxq (bf s)) \/ exists l b, In (l, b) pdus /\ p = (N.land l 3, b)).
+    { intros p Hp. destruct (F9 p Hp) as [X|(l & b & X & Y)]; [auto|]. right. exists l, b. split; [|exact Y].
+      destruct pdus as [|q t]; [discriminate|]. simpl in X. injection X as ->. left. reflexivity. }
     destruct (match tl pdus with [] => md | _ => true end).
     + destruct (radio_event fuel sa (tl pdus)) as [sb itb] eqn:E. injection H as <- <-.
-      destruct (IH _ _ _ _ E) as (G1 & G2 & G3 & G4 & G5 & G6).
+      destruct (IH _ _ _ _ E) as (G1 & G2 & G3 & G4 & G5 & G6 & G7 & G8 & G9).
       rewrite forallb_app, has_adv29_app, ring_callbacks_app, F4, G4, F5, G5, F6, G6.
-      repeat split; try congruence.
-    + injection H as <- <-. auto 10.
+      split; [congruence|]. split; [congruence|]. split; [congruence|]. split; [reflexivity|]. split; [reflexivity|]. split; [reflexivity|].
+      split; [congruence|]. split; [congruence|].
+      intros p Hp. destruct (G9 p Hp) as [X|(l & b & X & Y)]; [apply F9', X|].
+      right. exists l, b. split; [|exact Y]. destruct pdus; [destruct X|right; exact X].
+    + injection H as <- <-. auto 12.
 Qed.
 
 Lemma do_cancel_frame29 c s b us s' it :
   do_cancel c s b us = Some (s', it) ->
-  st s' = st s /\ ring s' = ring s /\ deferred s' = deferred s /\ forallb nocb_item it = true /\ has_adv29 it = false.
+  st s' = st s /\ ring s' = ring s /\ deferred s' = deferred s /\ forallb nocb_item it = true /\ has_adv29 it = false /\ V s' = V s.
 Proof.
   unfold do_cancel. destruct (_ && _); [|intros H; injection H as <- <-; auto 10].
   destruct b; [|intros H; injection H as <- <-; auto 10].
@@ -704,28 +1065,183 @@ Proof.
   destruct (dt_sub _ _) as [t|]; cbn [obind]; [|discriminate].
   match goal with |- (do r <- ?X; _) = _ -> _ => destruct X as [[s2 it2]|] eqn:E end; cbn [obind]; [|discriminate].
   intros H; injection H as <- <-. destruct (setup_next_frame29 _ _ _ E) as (G1 & G2 & G3 & G4 & G5).
-  cbn [forallb nocb_item andb]. unfold has_adv29. cbn [existsb orb]. rewrite G1, G2, G3. auto 10.
+  cbn [forallb nocb_item andb]. unfold has_adv29. cbn [existsb orb]. rewrite G1, G2, G3, (setup_next_V _ _ _ E). auto 10.
+Qed.
+
+(* ---- what an operation that stays in the connection keeps: the reason, no new timer source, no new received PDU *)
+Definition Keep (s s' : lstate_t) : Prop := Fr s s' /\ (disc_reason s' = disc_reason s \/ in_connection s' = false).
+Lemma Keep_V s s' : V s' = V s -> Keep s s'.
+Proof. intros E. split; [apply Fr_V; exact E|left; apply (V_dr _ _ E)]. Qed.
+
+Lemma keep_fd c s s' it : force_disconnect c s = (s', it) -> Fr s s' /\ in_connection s' = false.
+Proof. intros H. split; [apply Fr_V, (fd_V _ _ _ _ H)|unfold in_connection; rewrite (fd_st _ _ _ _ H); reflexivity]. Qed.
+Lemma Keep_fd c s0 s s' it : Fr s0 s -> force_disconnect c s = (s', it) -> Keep s0 s'.
+Proof. intros F H. destruct (keep_fd _ _ _ _ H) as [F' I]. split; [apply Fr_trans with s; assumption|right; exact I]. Qed.
+
+Lemma hrd_keep fuel c : forall s s1 it res,
+  handle_received_data fuel c s = (s1, it, res) -> Fr s s1 /\ (res = GoAhead -> disc_reason s1 = disc_reason s) /\ st s1 = st s.
+Proof.
+  induction fuel as [|fuel IH]; intros s s1 it res H; simpl in H.
+  - injection H as <- <- <-. split; [apply Fr_refl|auto].
+  - destruct (deferred s); [injection H as <- <- <-; split; [apply Fr_refl|auto]|].
+    destruct (rxq (bf s)) as [|[llid body] rest] eqn:Erx; [injection H as <- <- <-; split; [apply Fr_refl|auto]|].
+    assert (Pop : forall sx, (armed sx = true -> armed s = true) -> rxq (bf sx) = rxq (bf s) -> Fr s (upd_bf sx (fun b => set_rxq b rest))).
+    { intros sx A B. split; [exact A|]. intros p Hp. change (In p rest) in Hp. rewrite Erx. right. exact Hp. }
+    destruct (llid =? GenLL.ll_control_pdu_code).
+    + destruct (tx_buffer_available s); [|injection H as <- <- <-; split; [apply Fr_refl|auto]].
+      destruct (handle_ll_control c s body) as [[s1' it1] r1] eqn:E1.
+      destruct (hlc_reason c s body s1' it1 r1 E1) as (A1 & A2 & A3). destruct (hlc29 c s body s1' it1 r1 E1) as (S1 & _).
+      pose proof (Pop s1' A1 A2) as F2.
+      destruct r1.
+      * destruct (handle_received_data fuel c (upd_bf s1' (fun b => set_rxq b rest))) as [[s3 it3] r3] eqn:E3. injection H as <- <- <-.
+        destruct (IH _ _ _ _ E3) as (B1 & B2 & B3).
+        split; [eapply Fr_trans; eauto|]. split; [intros G; rewrite (B2 G); exact A3|rewrite B3; exact S1].
+      * injection H as <- <- <-. split; [exact F2|]. split; [discriminate|exact S1].
+    + destruct ((llid =? GenLL.lld_data_pdu_code) && negb (lstate_eqb (st s) Disconnecting)); [|injection H as <- <- <-; split; [apply Fr_refl|auto]].
+      destruct (if c_enc c then l2cap_reply_enc (is_enc (sc s)) body else l2cap_reply body) as [|r].
+      * destruct (IH _ _ _ _ H) as (B1 & B2 & B3). split; [eapply Fr_trans; [apply (Pop s); auto|exact B1]|]. split; [exact B2|exact B3].
+      * destruct (tx_buffer_available s); [|injection H as <- <- <-; split; [apply Fr_refl|auto]].
+        set (s1c := match r with Some f => commit s (GenLL.lld_data_pdu_code, f) | None => s end) in *.
+        assert (Ec : V s1c = V s) by (subst s1c; destruct r; [apply V_commit|reflexivity]).
+        assert (Sc : st s1c = st s) by (subst s1c; destruct r; [apply st_commit|reflexivity]).
+        destruct (V_dr _ _ Ec) as (X1 & X2 & X3).
+        destruct (IH _ _ _ _ H) as (B1 & B2 & B3).
+        split; [eapply Fr_trans; [apply (Pop s1c); [rewrite X2; auto|exact X3]|exact B1]|].
+        split; [intros G; rewrite (B2 G); exact X1|rewrite B3; exact Sc].
+Qed.
+
+Lemma pts_keep c s s' it : pending_then_setup c s = Some (s', it) -> Keep s s'.
+Proof.
+  unfold pending_then_setup. intros H.
+  destruct (handle_pending_ll_control c s) as [[[s1 it1] res]|] eqn:E; cbn [obind] in H; [|discriminate].
+  destruct (hpll_V c s s1 it1 res E) as [D F]. destruct res.
+  - destruct (setup_next_connection_event s1) as [[s2 it2]|] eqn:E2; cbn [obind] in H; [|discriminate].
+    injection H as <- <-. destruct (V_dr _ _ (setup_next_V _ _ _ E2)) as (X1 & X2 & X3).
+    split; [apply Fr_trans with s1; [exact F|apply Fr_V, (setup_next_V _ _ _ E2)]|left; congruence].
+  - destruct (force_disconnect c s1) as [s2 it2] eqn:E2. injection H as <- <-. apply (Keep_fd c s s1 s2 it2 F E2).
+Qed.
+
+Lemma Fr_set_dr s r : Fr s (set_disc_reason s r).
+Proof. split; auto. Qed.
+
+Lemma continue_keep c s evts s' it : end_event_continue c s evts = Some (s', it) -> Keep s s'.
+Proof.
+  unfold end_event_continue. intros H. destruct (procedure_timed_out s).
+  - injection H as H. unfold force_disconnect_reason in H. apply (Keep_fd c s _ s' it (Fr_set_dr s _) H).
+  - set (s5 := if negb (proc_timeout s =? 0) then set_proc_timeout s (proc_timeout s - tsle (cs s)) else s) in *.
+    assert (K5 : Fr s s5 /\ disc_reason s5 = disc_reason s).
+    { subst s5. destruct (negb (proc_timeout s =? 0)) eqn:E; [|split; [apply Fr_refl|reflexivity]].
+      split; [|reflexivity]. split; [intros _; unfold armed; rewrite E; reflexivity|auto]. }
+    destruct K5 as [F5 D5].
+    destruct (transmit_pending_security_pdus c s5) as [s6 it6] eqn:E6.
+    destruct (plan_next_connection_event c s6 _) as [s7|] eqn:E7; cbn [obind] in H; [|discriminate].
+    destruct (pending_then_setup c s7) as [[s8 it8]|] eqn:E8; cbn [obind] in H; [|discriminate].
+    injection H as <- <-.
+    destruct (V_dr _ _ (tpsp_V _ _ _ _ E6)) as (X1 & X2 & X3). destruct (V_dr _ _ (plan_next_V _ _ _ _ E7)) as (Y1 & Y2 & Y3).
+    assert (F7 : Fr s s7) by (apply Fr_trans with s5; [exact F5|]; apply Fr_trans with s6; apply Fr_V; [apply (tpsp_V _ _ _ _ E6)|apply (plan_next_V _ _ _ _ E7)]).
+    destruct (pts_keep _ _ _ _ E8) as [F8 D8].
+    split; [apply Fr_trans with s7; assumption|]. destruct D8 as [D8|D8]; [left; congruence|right; exact D8].
+Qed.
+
+Lemma body_keep c s evts s' it : end_event_body c s evts = Some (s', it) -> Keep s s'.
+Proof.
+  unfold end_event_body. intros H.
+  destruct (lstate_eqb (st s) Disconnecting && term_sent s && negb (pending_outgoing_data_available s)).
+  - injection H as H. apply (Keep_fd c s s s' it (Fr_refl s) H).
+  - destruct (handle_received_data _ c s) as [[s3 it3] res] eqn:E3.
+    destruct (hrd_keep _ c s s3 it3 res E3) as (F3 & D3 & S3).
+    destruct res.
+    + destruct (end_event_continue c (send_control_pdus s3) evts) as [[s8 it8]|] eqn:E8; cbn [obind] in H; [|discriminate].
+      injection H as <- <-. destruct (continue_keep _ _ _ _ _ E8) as [F8 D8]. destruct (V_dr _ _ (scp_V s3)) as (Z1 & Z2 & Z3).
+      split; [apply Fr_trans with s3; [exact F3|]; apply Fr_trans with (send_control_pdus s3); [apply Fr_V, scp_V|exact F8]|].
+      destruct D8 as [D8|D8]; [left; rewrite D8, Z1; apply D3; reflexivity|right; exact D8].
+    + destruct (force_disconnect c s3) as [s4 it4] eqn:E4. injection H as <- <-. apply (Keep_fd c s s3 s4 it4 F3 E4).
+Qed.
+
+Lemma dee_keep c s evts s' it : do_end_event c s evts = Some (s', it) -> Keep s s'.
+Proof.
+  unfold do_end_event. intros H.
+  destruct (end_event_body c (end_event_prologue c s) evts) as [[s9 it9]|] eqn:E; cbn [obind] in H; [|discriminate].
+  assert (H' : end_event_epilogue c s9 it9 = (s', it)) by congruence.
+  destruct (body_keep _ _ _ _ _ E) as [F9 D9]. destruct (V_dr _ _ (prologue_V c s)) as (P1 & P2 & P3).
+  unfold end_event_epilogue, flush_events in H'. injection H' as <- _.
+  set (s10 := match st s9 with Connected | Connecting => transmit_pending_control_pdus c s9 | _ => s9 end).
+  assert (K10 : disc_reason s10 = disc_reason s9 /\ Fr s9 s10 /\ st s10 = st s9).
+  { subst s10. destruct (st s9) eqn:Es; try (split; [reflexivity|split; [apply Fr_refl|exact Es]]);
+      (destruct (tpcp_V c s9) as [A B]; split; [exact A|split; [exact B|rewrite (proj1 (tpcp_frame29 c s9)); exact Es]]). }
+  destruct K10 as (A10 & B10 & C10).
+  split.
+  - apply Fr_trans with (end_event_prologue c s); [apply Fr_V, prologue_V|]. apply Fr_trans with s9; [exact F9|].
+    apply Fr_trans with s10; [exact B10|apply Fr_V; reflexivity].
+  - cbn [disc_reason set_ring]. unfold in_connection. cbn [st set_ring]. rewrite A10, C10.
+    destruct D9 as [D9|D9]; [left; congruence|right; exact D9].
+Qed.
+
+Lemma dt_keep c s s' it : do_timeout c s = Some (s', it) -> Keep s s'.
+Proof.
+  unfold do_timeout. intros H. set (s0 := set_pending_event s false) in *.
+  match type of H with (do r <- ?X; _) = _ => destruct X as [[s2 it2]|] eqn:E end; cbn [obind] in H; [|discriminate].
+  unfold flush_events in H. injection H as <- _.
+  assert (K2 : Keep s s2).
+  { destruct (lstate_eqb (st s0) Disconnecting && term_sent s0 && negb (pending_outgoing_data_available s0)).
+    - injection E as E. apply (Keep_fd c s s0 s2 it2 (Fr_V _ _ eq_refl) E).
+    - destruct (negb (proc_timeout s0 =? 0) && (proc_timeout s0 <=? tsle (cs s0))).
+      + injection E as E. unfold force_disconnect_reason in E.
+        apply (Keep_fd c s (set_disc_reason s0 GenLL.connection_ll_response_timeout) s2 it2); [split; auto|exact E].
+      + destruct (dt_mul _ _) as [five|]; cbn [obind] in E; [|discriminate].
+        match type of E with context [if ?b then _ else _] => destruct b end.
+        * unfold plan_after_timeout in E. destruct (dt_add _ _) as [t|]; cbn [obind] in E; [|discriminate].
+          apply pts_keep in E. exact E.
+        * injection E as E. apply (Keep_fd c s s0 s2 it2 (Fr_V _ _ eq_refl) E). }
+  destruct K2 as [F2 D2]. split; [apply Fr_trans with s2; [exact F2|apply Fr_V; reflexivity]|exact D2].
+Qed.
+
+(* what the monitor learns from the PDUs of a connection event covers what the radio puts into the receive queue *)
+Lemma RX_ev m evts pdus s s1 :
+  RX (l_why m) s ->
+  (forall p, In p (rxq (bf s1)) -> In p (rxq (bf s)) \/ exists l b, In (l, b) pdus /\ p = (N.land l 3, b)) ->
+  RX (l_why (noted m (Ev evts pdus))) s1.
+Proof.
+  intros HX Hq body Hb. destruct (Hq _ Hb) as [X|(l & b & X & Y)].
+  - apply (RX_noted m (Ev evts pdus) s HX). exact X.
+  - injection Y as Y1 Y2. subst b. cbn [noted set_why l_why why_op w_inst w_terms]. split.
+    + intros I. cbn [w_inst]. apply orb_true_iff. right. apply existsb_exists. exists (l, body). split; [exact X|].
+      unfold ctrl_pdu. cbn [fst snd]. rewrite <- Y1, N.eqb_refl, I. reflexivity.
+    + intros x Ex. cbn [w_terms]. rewrite existsb_app. apply orb_true_iff. right. apply existsb_exists. exists x. split; [|apply N.eqb_refl].
+      apply in_flat_map. exists (l, body). split; [exact X|]. unfold term_codes, ctrl_pdu. cbn [fst snd]. rewrite <- Y1, N.eqb_refl, Ex. left. reflexivity.
 Qed.
 
 (* closing an operation inside a connection *)
 Lemma conn_step c s m o s' it :
-  c_cb c = true -> RI s m -> in_connection s = true -> done29 m s' it ->
+  c_cb c = true -> RI s m -> in_connection s = true -> done29 (noted m o) s' it ->
   N.of_nat (ring_callbacks it) <? GenLL.max_events = true ->
-  match o with Adv _ _ => False | Ev _ _ => st s' <> Connecting | _ => True end ->
+  match o with Adv _ _ | Disconnect _ => False | Ev _ _ => st s' <> Connecting | _ => True end ->
+  RX (l_why (noted m o)) s' -> (armed s' = true -> w_arm (l_why (noted m o)) = true) ->
+  (disc_reason s' = disc_reason s \/ in_connection s' = false) ->
   exists m', mstep29 c m o (OItems it) = (Ok, m') /\ RI s' m'.
 Proof.
-  intros Hcb (R1 & R2 & R3 & R4 & R5) Hin Dn Hlt Ho.
-  destruct (done29_fold m s' it Dn Hlt) as (m1 & F & P & L & Rg & D & A & DN).
-  unfold mstep29. rewrite F, Hcb. cbn [negb]. rewrite L, (R3 Hin). cbn [andb].
+  intros Hcb (R1 & R2 & R3 & R4 & R5 & R6 & R7 & R8) Hin Dn Hlt Ho HX HA HD.
+  destruct (done29_fold _ s' it Dn Hlt) as (m1 & F & P & L & Y & Rg & D & A & DN).
+  assert (L' : l_link m1 = true) by (rewrite L; apply (R3 Hin)).
+  assert (B : w_base (l_why m1) = w_base (l_why m)) by (rewrite Y; destruct o; try reflexivity; destruct Ho).
+  unfold mstep29. fold (noted m o). rewrite F, Hcb. cbn [negb]. rewrite L'. cbn [andb].
   destruct (has_adv29 it) eqn:Ea.
   - pose proof (A eq_refl) as I'. rewrite P. rewrite (proj1 (inconn_ph s') I'). cbn [is_idle29].
     eexists. split; [destruct o; try reflexivity; destruct Ho|].
-    unfold RI. cbn [l_phase l_link]. rewrite (proj1 (inconn_ph s') I'), I'. repeat split; auto; try discriminate.
-  - assert (RI s' m1) by (unfold RI; rewrite L, (R3 Hin); repeat split; auto).
+    unfold RI. cbn [l_phase l_link l_why]. rewrite (proj1 (inconn_ph s') I'), I', Y.
+    split; [exact Rg|]. split; [reflexivity|]. split; [discriminate|]. split; [exact D|]. split; [intros _; apply DN, I'|].
+    split; [discriminate|]. split; [exact HX|exact HA].
+  - assert (RI s' m1).
+    { unfold RI. rewrite L', Y. split; [exact Rg|]. split; [exact P|]. split; [auto|]. split; [exact D|]. split; [exact DN|].
+      split; [|split; [exact HX|exact HA]].
+      intros I'. rewrite <- Y, B, <- (R6 Hin). destruct HD as [HD|HD]; [exact HD|congruence]. }
     exists m1. split; [|assumption].
     destruct o; try reflexivity; try (destruct Ho; fail).
     rewrite P. destruct (st s') eqn:Es; try reflexivity. exfalso. apply Ho. reflexivity.
 Qed.
+
+Lemma Fr_RX w s s' : Fr s s' -> RX w s -> RX w s'.
+Proof. intros [_ F] HX body Hb. apply HX, F, Hb. Qed.
 
 Theorem step29 c s m o s' r :
   c_cb c = true -> RI s m -> lstep c s o = (s', r) -> env_step29 m o r = true ->
@@ -734,7 +1250,7 @@ Proof.
   intros Hcb HR H He.
   assert (PRE : forall r0, (r0 = OPre \/ r0 = OBadOp) -> (s, r0) = (s', r) -> exists m', mstep29 c m o r = (Ok, m') /\ RI s' m').
   { intros r0 [->| ->] E; injection E as <- <-; exists m; split; auto. }
-  pose proof HR as (R1 & R2 & R3 & R4 & R5).
+  pose proof HR as (R1 & R2 & R3 & R4 & R5 & R6 & R7 & R8).
   destruct o; cbn [lstep] in H.
   - (* Run *)
     destruct (st s) eqn:Es.
@@ -755,56 +1271,89 @@ Proof.
     unfold ok_items in H. destruct (do_adv_received c s hdr0 body) as [[s1 it]|] eqn:E; [|injection H as <- <-; discriminate].
     injection H as <- <-.
     assert (Hin : in_connection s = false) by (unfold in_connection; rewrite Es; reflexivity).
+    pose proof (RI_noted s m (Adv hdr0 body) HR I) as (N1 & N2 & N3 & N4 & N5 & N6 & N7 & N8).
     destruct (adv_shape c s hdr0 body s1 it E) as [(S1 & S2 & S3 & S4 & S5 & (it1 & S6))|(pre & d & S1 & S2 & S3 & S4 & S5 & S6 & S7)].
-    + exists m. unfold mstep29. rewrite (fold29_nocb_all m it S5), Hcb, S4. cbn [negb]. split; [reflexivity|].
-      unfold RI. rewrite S1, S2, S3, (inconn_st s s1 S1). auto.
-    + subst it. unfold mstep29. rewrite (fold29_nocb m pre _ S5), R1.
+    + exists (noted m (Adv hdr0 body)). unfold mstep29. fold (noted m (Adv hdr0 body)). rewrite (fold29_nocb_all _ it S5), Hcb, S4. cbn [negb]. split; [reflexivity|].
+      destruct (adv_V c s hdr0 body s1 it E) as [[_ EV]|EV].
+      * destruct (V_dr _ _ EV) as (X1 & X2 & X3). unfold RI, RX. rewrite S1, S2, S3, (inconn_st s s1 S1), X1, X2, X3.
+        split; [exact N1|]. split; [exact N2|]. split; [exact N3|]. split; [exact N4|]. split; [exact N5|]. split; [exact N6|]. split; [exact N7|exact N8].
+      * unfold RI, RX. rewrite S1, S2, S3, (inconn_st s s1 S1), Hin. unfold V in EV. injection EV as X1 X2 X3 X4 X5.
+        split; [exact N1|]. split; [exact N2|]. split; [discriminate|]. split; [exact N4|]. split; [intros _; apply N5, Hin|]. split; [discriminate|].
+        split; [rewrite X5; intros b []|]. unfold armed. rewrite X2, X3, X4. discriminate.
+    + subst it. unfold mstep29. fold (noted m (Adv hdr0 body)). rewrite (fold29_nocb _ pre _ S5), R1.
       unfold pushr. rewrite Hcb. change (N.of_nat (length (@nil cb_event)) <? GenLL.max_events) with true. cbn [app map fold29 cb29].
-      rewrite R2. cbn [ph negb].
+      rewrite N2, Es. cbn [ph negb].
       rewrite has_ce29_app, S7. cbn [orb l_phase l_closed is_requested29].
       eexists. split; [reflexivity|].
-      unfold RI. cbn [l_phase l_link]. rewrite S1, S2, S3. cbn [ph]. repeat split; auto.
+      destruct (adv_V c s hdr0 body s1 _ E) as [[EV _]|EV].
+      * exfalso. congruence.
+      * unfold V in EV. injection EV as X1 X2 X3 X4 X5.
+        assert (I1 : in_connection s1 = true) by (unfold in_connection; rewrite S1; reflexivity).
+        unfold RI, RX. cbn [l_phase l_link l_why fresh_why w_base w_arm]. rewrite S1, S2, S3, X1, X5, I1. cbn [ph].
+        split; [reflexivity|]. split; [reflexivity|]. split; [reflexivity|]. split; [intros _; apply R5, Hin|]. split; [discriminate|].
+        split; [reflexivity|]. split; [intros b []|]. unfold armed. rewrite X2, X3, X4. discriminate.
   - (* Ev *)
     destruct (in_connection s) eqn:Hin; [|apply (PRE OPre); auto].
     match type of H with context [existsb ?f pdus] => destruct (existsb f pdus) end; [apply (PRE OBadOp); auto|].
     destruct (radio_event _ s pdus) as [s1 it1] eqn:E1.
     destruct (do_end_event c s1 evts) as [[s2 it2]|] eqn:E2; [|injection H as <- <-; discriminate].
     injection H as <- <-.
-    destruct (radio_event_frame29 _ _ _ _ _ E1) as (F1 & F2 & F3 & F4 & F5 & F6).
+    destruct (radio_event_frame29 _ _ _ _ _ E1) as (F1 & F2 & F3 & F4 & F5 & F6 & F7 & F8 & F9).
     cbn [env_step29] in He. apply andb_true_iff in He. destruct He as [He _].
-    destruct (do_end_event29 c m s1 evts s2 it2 Hcb) as [Dn NC]; auto.
+    set (m0 := noted m (Ev evts pdus)).
+    assert (HX1 : RX (l_why m0) s1) by (apply RX_ev with s; assumption).
+    assert (HA1 : armed s1 = true -> w_arm (l_why m0) = true) by (rewrite F8; intros G; apply arm_noted, R8, G).
+    assert (Ha1 : adm (l_why m0) (disc_reason s1) = true) by (apply adm_base; rewrite F7, (R6 eq_refl); reflexivity).
+    destruct (do_end_event29 c m0 s1 evts s2 it2 Hcb) as [Dn NC]; auto.
     + rewrite <- Hin. apply inconn_st. exact F1.
     + rewrite F1, F2, R1. apply Wr_nil. exact R2.
-    + apply conn_step with s; auto.
-      destruct Dn as (pre & r & -> & N & Rg & W & D & A & DN).
-      exists (it1 ++ pre), r. rewrite <- app_assoc. split; [reflexivity|]. split; [rewrite forallb_app, F4, N; reflexivity|].
-      split; [exact Rg|]. split; [exact W|]. split; [exact D|]. split; [|exact DN].
-      rewrite has_adv29_app, F5. cbn [orb]. exact A.
+    + destruct (dee_keep _ _ _ _ _ E2) as [K1 K2].
+      apply conn_step with s; auto.
+      * destruct Dn as (pre & r & -> & N & Rg & W & D & A & DN).
+        exists (it1 ++ pre), r. rewrite <- app_assoc. split; [reflexivity|]. split; [rewrite forallb_app, F4, N; reflexivity|].
+        split; [exact Rg|]. split; [exact W|]. split; [exact D|]. split; [|exact DN].
+        rewrite has_adv29_app, F5. cbn [orb]. exact A.
+      * apply (Fr_RX _ s1 s2 K1 HX1).
+      * intros G. apply HA1, (proj1 K1), G.
+      * rewrite <- F7. exact K2.
   - (* Timeout *)
     destruct (in_connection s) eqn:Hin; [|apply (PRE OPre); auto].
     unfold ok_items in H. destruct (do_timeout c s) as [[s1 it]|] eqn:E; [|injection H as <- <-; discriminate].
     injection H as <- <-. cbn [env_step29] in He. apply andb_true_iff in He. destruct He as [He _].
-    assert (Dn : done29 m s1 it) by (apply do_timeout29 with c s; auto; rewrite R1; apply Wr_nil; exact R2).
+    set (m0 := noted m Timeout).
+    assert (Dn : done29 m0 s1 it).
+    { assert (W0 : Wr m0 (ring s) (ph (st s))) by (rewrite R1; apply Wr_nil; exact R2).
+      assert (A0 : adm (l_why m0) (disc_reason s) = true) by (apply adm_base; rewrite (R6 eq_refl); reflexivity).
+      assert (H0 : armed s = true -> w_arm (l_why m0) = true) by (intros G; apply arm_noted, R8, G).
+      exact (do_timeout29 c m0 s s1 it Hcb Hin W0 R4 A0 H0 E). }
+    destruct (dt_keep _ _ _ _ E) as [K1 K2].
     apply conn_step with s; auto.
+    + apply (Fr_RX _ s s1 K1). apply RX_noted. exact R7.
+    + intros G. apply arm_noted, R8, (proj1 K1), G.
   - (* Disconnect *)
     destruct (in_connection s) eqn:Hin; [|apply (PRE OPre); auto].
     match type of H with (let '(s2, it) := reset_encryption c ?X in _) = _ => set (s1 := X) in * end.
-    pose proof (reset_encryption_frame29 c s1) as F. destruct (reset_encryption c s1) as [s2 it].
+    pose proof (reset_encryption_frame29 c s1) as F. destruct (reset_encryption c s1) as [s2 it] eqn:Er.
     destruct F as (F1 & F2 & F3 & F4 & F5 & F6). injection H as <- <-.
     cbn [env_step29] in He. apply andb_true_iff in He. destruct He as [_ He]. apply negb_true_iff in He.
-    exists m. unfold mstep29. rewrite (fold29_nocb_all m it F5), Hcb, F6, andb_false_r. cbn [negb]. split; [reflexivity|].
-    unfold RI. rewrite F2, F4. unfold in_connection. rewrite F1. cbn [st ring deferred set_proc_timeout set_disc_reason set_term_sent set_st].
+    assert (Fb : rxq (bf s2) = rxq (bf s) /\ True).
+    { split; [|exact I]. unfold reset_encryption in Er. destruct (c_enc c); injection Er as <- _; reflexivity. }
+    exists (noted m (Disconnect reason)). unfold mstep29. fold (noted m (Disconnect reason)).
+    rewrite (fold29_nocb_all _ it F5), Hcb, F6, andb_false_r. cbn [negb]. split; [reflexivity|].
+    unfold RI, RX. rewrite F2, F4, F3, (proj1 Fb). unfold in_connection. rewrite F1.
+    cbn [st ring deferred disc_reason set_proc_timeout set_disc_reason set_term_sent set_st s1 noted set_why l_phase l_link l_why why_op w_base w_arm].
     split; [exact R1|]. split.
     + rewrite R2. rewrite R2 in He. unfold in_connection in Hin. destruct (st s); simpl in *; try discriminate; reflexivity.
-    + split; [intros _; apply R3; reflexivity|]. split; discriminate.
+    + split; [intros _; apply R3; reflexivity|]. split; [discriminate|]. split; [discriminate|].
+      split; [intros _; destruct reason; reflexivity|]. split; [apply (RX_noted m (Disconnect reason) s R7)|reflexivity].
   - (* Cpu *)
     destruct (in_connection s) eqn:Hin; [|apply (PRE OPre); auto].
     repeat match type of H with context [if ?b then _ else _] => destruct b end; injection H as <- <-;
-      (apply quiet_step with s; auto; exact I).
+      (apply quiet_step with s; auto; try exact I; intros _; right; reflexivity).
   - (* Cpr *)
     destruct (in_connection s) eqn:Hin; [|apply (PRE OPre); auto].
     repeat match type of H with context [if ?b then _ else _] => destruct b end; injection H as <- <-;
-      (apply quiet_step with s; auto; exact I).
+      (apply quiet_step with s; auto; try exact I; intros _; right; reflexivity).
   - (* PhyReq *)
     destruct (in_connection s) eqn:Hin; [|apply (PRE OPre); auto].
     repeat match type of H with context [if ?b then _ else _] => destruct b end; injection H as <- <-;
@@ -812,13 +1361,14 @@ Proof.
   - (* VerReq *)
     destruct (in_connection s) eqn:Hin; [|apply (PRE OPre); auto].
     repeat match type of H with context [if ?b then _ else _] => destruct b end; injection H as <- <-;
-      (apply quiet_step with s; auto; exact I).
+      (apply quiet_step with s; auto; try exact I; intros _; right; reflexivity).
   - (* TxAvail *)
     injection H as <- <-. apply quiet_step with s; auto. exact I.
   - (* Cancel *)
     unfold ok_items in H. destruct (do_cancel c s b us) as [[s1 it]|] eqn:E; [|injection H as <- <-; discriminate].
-    injection H as <- <-. destruct (do_cancel_frame29 _ _ _ _ _ _ E) as (F1 & F2 & F3 & F4 & F5).
-    apply quiet_step with s; auto. exact I.
+    injection H as <- <-. destruct (do_cancel_frame29 _ _ _ _ _ _ E) as (F1 & F2 & F3 & F4 & F5 & F6).
+    destruct (V_dr _ _ F6) as (X1 & X2 & X3).
+    apply quiet_step with s; auto; [rewrite X2; auto|exact I].
   - (* CprReply *)
     destruct (c_cpr c); try (apply (PRE OBadOp); auto; fail). injection H as <- <-. apply quiet_step with s; auto. exact I.
   - (* CprNeg *)
@@ -830,7 +1380,6 @@ Proof.
     unfold st_item; destruct (in_connection s); reflexivity.
 Qed.
 
-(* ========================================================================================== part 7 *)
 Lemma RI_init c : RI (linit c) (minit29 c).
 Proof. unfold RI. cbn. repeat split; auto; discriminate. Qed.
 
@@ -925,7 +1474,7 @@ Proof. vm_compute. reflexivity. Qed.
 Lemma monitor29_rejects_closed_twice :
   fst (mrun29 cfg29 (minit29 cfg29)
          [(connect29, OItems [ICe 1 2 3 4; ICb (EvRequested (mk_details 24 0 72 150))]); (Ev 0 [], OItems [ICb (EvEstablished (mk_details 24 0 72 150))]);
-          (Ev 0 [], OItems [IAdv 37; ICb (EvClosed 19); ICb (EvClosed 19)])]) = Bad 2.
+          (Ev 0 [terminate_ind], OItems [IAdv 37; ICb (EvClosed 19); ICb (EvClosed 19)])]) = Bad 2.
 Proof. vm_compute. reflexivity. Qed.
 Lemma monitor29_rejects_unrequested :
   fst (mrun29 cfg29 (minit29 cfg29) [(Ev 0 [], OItems [ICb (EvChanged (mk_details 24 0 72 150))])]) = Bad 4.
@@ -938,3 +1487,26 @@ Proof. vm_compute. reflexivity. Qed.
 Lemma monitor29_rejects_missing_requested :
   fst (mrun29 cfg29 (minit29 cfg29) [(connect29, OItems [IAa 1 2; ICe 1 2 3 4])]) = Bad 6.
 Proof. vm_compute. reflexivity. Qed.
+
+(* closed with a reason that is none of the causes of THIS connection: the first connection is ended by LL_TERMINATE_IND( 0x13 ),
+   the second by the supervision timeout - reported with the stale 0x13 it is rejected, with 0x08 accepted *)
+Definition two_connections (last_reason : N) : list (lop * lout) :=
+  [(connect29, OItems [ICe 1 2 3 4; ICb (EvRequested (mk_details 24 0 72 150))]); (Ev 0 [], OItems [ICb (EvEstablished (mk_details 24 0 72 150))]);
+   (Ev 0 [terminate_ind], OItems [IAdv 37; ICb (EvClosed 19)]);
+   (connect29, OItems [ICe 1 2 3 4; ICb (EvRequested (mk_details 24 0 72 150))]); (Ev 0 [], OItems [ICb (EvEstablished (mk_details 24 0 72 150))]);
+   (Timeout, OItems [IAdv 37; ICb (EvClosed last_reason)])].
+Lemma monitor29_rejects_stale_reason : fst (mrun29 cfg29 (minit29 cfg29) (two_connections 19)) = Bad 9.
+Proof. vm_compute. reflexivity. Qed.
+Lemma monitor29_accepts_proper_reason : fst (mrun29 cfg29 (minit29 cfg29) (two_connections 8)) = Ok.
+Proof. vm_compute. reflexivity. Qed.
+(* the model: two connections in one history, five different causes of the end, each reported with its own reason *)
+Definition session29_reasons : list lop :=
+  [Run; connect29; Ev 0 []; Ev 0 [terminate_ind];
+   connect29; Ev 0 []; Disconnect (Some 59); Ev 0 []; Ev 0 []; Ev 0 [];
+   connect29; Ev 0 []; Ev 0 [(3, [1; 255; 255; 255; 255; 31; 0; 240])];
+   connect29; Ev 0 []] ++ repeat Timeout 30.
+Lemma session29_reasons_closed :
+  flat_map (fun x => match snd x with OItems it => flat_map (fun i => match i with ICb (EvClosed r) => [r] | _ => [] end) it | _ => [] end)
+           (lrun cfg29 (linit cfg29) session29_reasons) = [19; 59; 40; 8]
+  /\ fst (mrun29 cfg29 (minit29 cfg29) (lrun cfg29 (linit cfg29) session29_reasons)) = Ok.
+Proof. vm_compute. auto. Qed.
